@@ -2200,3 +2200,35 @@ def k_rgba_name(E, tier):
         rec.table_rows = len(table)
     rec.notes.append("names are checked against rsass's own reading of names (Rgba::from_name); whether the table's values are the CSS named colours is outside (no reference table in this image)")
     return rec
+
+
+def k_rgba_transparent(E, tier):
+    """C33 (`transparent`): the compressed printer writes `transparent` for a colour without byte form when
+    Rgba::all_zero says so; all_zero is true exactly when red, green, blue and alpha are all (plus or minus) zero —
+    for every f64 quadruple, so nothing that merely rounds to zero (alpha 0.001, channel 0.4) is printed as
+    `transparent`, which denotes rgba(0, 0, 0, 0)."""
+    f = E.find(name_re=r"^rgba::<impl at .*>::all_zero$")
+    rec = Rec("Rgba::all_zero", f, E)
+    ctx = E.ctx()
+    ch = [ctx.fresh_scalar("f64", n) for n in ("red", "green", "blue", "alpha")]
+    me = sym.Agg("Rgba", None, {"0": ch[0], "1": ch[1], "2": ch[2], "3": ch[3], "4": sym.Opaque("RgbFormat", "source", ctx)})
+    calls = sorted(set(re.findall(r"= ([A-Za-z_<][^\n;]*?)\(.*\) -> \[return", f.source())))
+    rec.add("Rgba::all_zero compares the four channels itself, exactly (it calls nothing — a rounding helper such as to_bytes would make near-zero colours `transparent`)",
+            _structural(not calls, ", ".join(calls)[:120]))
+    ex = sym.Executor(ctx, models=list(BASE_MODELS), feasibility=E.feasibility(ctx), max_paths=200)
+    try:
+        paths = [p for p in ex.run(f, [sym.Ref("val", me)]) if p.status == "return"]
+    except sym.Unsupported as e:
+        rec.notes.append(str(e)[:200])
+        paths = []
+    rec.paths = len(paths)
+    zero = "(and %s)" % " ".join("(fp.isZero %s)" % c.term for c in ch)
+    if not paths:
+        _inconclusive(rec, "Rgba::all_zero is straight-line code over the four channels")
+    for i, p in enumerate(paths):
+        if not (isinstance(p.ret, sym.Scalar) and p.ret.sort == "bool"):
+            _inconclusive(rec, "path %d: a boolean result" % i)
+            continue
+        r = E.decide(ctx, p.pc + ["(not (= %s %s))" % (p.ret.term, zero)], model_names=[c.term for c in ch])
+        rec.add("path %d: the result is true exactly when red, green, blue and alpha are all zero (every f64 quadruple)" % i, r, {"lift": "transparent"})
+    return rec
